@@ -229,6 +229,11 @@ def compile_c(workdir, out_name, sources, extra=None, sanitize=True, libs=None, 
     """Compile sources (absolute paths or (path, [per-file flags])) into workdir/out_name.
     Returns (path|None, log)."""
     out = os.path.join(workdir, out_name)
+    cov = os.environ.get("VERIF_COVERAGE") == "1"        # tools/coverage.py: gcov build, no sanitizers
+    if cov:
+        sanitize = False
+        extra = list(extra or []) + ["--coverage", "-O0", "-DH_COVERAGE"]
+        libs = list(libs or []) + ["--coverage"]
     flags = BASE_CFLAGS + (SAN_FLAGS if sanitize else []) + include_flags(workdir) + (extra or [])
     objs, jobs = [], []
     for idx, s in enumerate(sources):
